@@ -100,13 +100,11 @@ def canonicalize_half_turns(half_turns: sympy.Expr) -> sympy.Expr:
 def canonicalize_half_turns(half_turns: type_alias.TParamVal) -> type_alias.TParamVal:
     """Wraps the input into the range (-1, +1]."""
     if isinstance(half_turns, sympy.Expr):
-        if not half_turns.is_constant():
+        # Anything with a free symbol stays symbolic (also value-constant forms such as 1.0**a);
+        # sympy's is_constant() is not needed for that and can exceed the recursion limit.
+        if half_turns.free_symbols:
             return half_turns
-        try:
-            half_turns = float(half_turns)
-        except TypeError:
-            # Constant in value but still symbolic, e.g. 1.0**a.
-            return half_turns
+        half_turns = float(half_turns)
     half_turns %= 2
     if half_turns > 1:
         half_turns -= 2
